@@ -75,6 +75,13 @@ def bil_from(terms, ncu, only=None):
     return form
 
 
+def with_arity(fn, n):
+    """Wrap a *args callable into one with n explicit positional parameters (Form.block and asm() inspect the
+    signature of the form)."""
+    names = ", ".join(f"a{i}" for i in range(n))
+    return eval(f"lambda {names}: fn({names})", {"fn": fn})
+
+
 def pick(ctx, rng, kind, k):
     recs = EL.composites(kind)
     base = [r for r in EL.of_kind(kind) if r.family == "h1" and not r.skeleton and r.mesh_req == "any"
@@ -191,9 +198,12 @@ def coupled_blocks(ctx, k, kind):
             ctx.close("coupled-equals-blocks", A[np.ix_(ixs[cv], ixs[cu])], B.toarray(), rtol=1e-11, scale=scale,
                       mech=f"coupled-block:{rec.name.split('(')[0]}", trial=cu, test=cv, **tag)
             # Form.block on the coupled form
-            Bb = skfem.BilinearForm(bil_from(terms, ncu)).block(cu, cv).assemble(sb[cu], sb[cv])
-            ctx.close("form-block-equals-block", Bb.toarray(), B.toarray(), rtol=1e-12, scale=scale,
-                      mech="form-block", trial=cu, test=cv, **tag)
+            # Form.block zeroes the other components with zero fields *of the given component's type*, so it is
+            # meaningful only when all components have the same tensor order and fields (scalar H1 components)
+            if all(type(e).__mro__[1].__name__ == "ElementH1" for e in elem.elems):
+                Bb = skfem.BilinearForm(with_arity(bil_from(terms, ncu), 2 * ncu + 1)).block(cu, cv).assemble(sb[cu], sb[cv])
+                ctx.close("form-block-equals-block", Bb.toarray(), B.toarray(), rtol=1e-12, scale=scale,
+                          mech="form-block", trial=cu, test=cv, **tag)
     M = skfem.utils.bmat(blocks, "csr")
     perm = np.concatenate(ixs)
     ctx.close("bmat-equals-coupled", M.toarray(), A[np.ix_(perm, perm)], rtol=1e-11, scale=scale, mech="bmat", **tag)
@@ -234,8 +244,7 @@ def partition_sum(ctx, k, kind):
     parts = [p for p in parts if p.size]
     bases = [skfem.CellBasis(mesh, rec.make(), elements=p) for p in parts]
     tag = dict(elem=rec.name, mesh=type(mesh).__name__, desc=mc.desc, parts=[int(p.size) for p in parts])
-    S = skfem.asm(form, bases, bases)  # product of the lists: only matching pairs have matching quadrature domains
-    # the documented way: one list -> sum over bases
+    # one list of bases -> sum over the bases
     S1 = sum(form.assemble(b) for b in bases)
     scale = float(np.abs(A).max()) + 1e-300
     ctx.close("partition-sum-equals-whole", S1.toarray(), A.toarray(), rtol=1e-11, scale=scale, mech="partition-sum", **tag)
@@ -365,11 +374,30 @@ def sum_values(u, v):
     return pr
 
 
+def bmat_directed(ctx, k):
+    """skfem.utils.bmat with 2-5 block columns of unequal widths (matrices, None entries, a trailing vector column)."""
+    import skfem
+    import scipy.sparse as sp
+    rng = ctx.rng()
+    n = int(rng.integers(2, 6))
+    widths = rng.integers(1, 6, size=n)
+    heights = rng.integers(1, 6, size=n)
+    blocks = [[sp.random(int(heights[i]), int(widths[j]), density=0.8, random_state=int(rng.integers(1 << 30)), format="csr")
+               if (i == j or rng.random() < 0.6) else None for j in range(n)] for i in range(n)]
+    M = skfem.utils.bmat(blocks, "csr")
+    ref = sp.bmat(blocks, "csr")
+    ctx.close("bmat-equals-coupled", M.toarray(), ref.toarray(), rtol=0, scale=1.0, mech="bmat-directed")
+    want = np.cumsum(widths)[:-1].tolist()
+    ctx.check("bmat-block-offsets", list(M.blocks) == want, mech="bmat-blocks-cumulative-offsets-double-counted"
+              if n >= 4 else "bmat-blocks-attribute", got=[int(b) for b in M.blocks], want=want, ncols=n)
+    ctx.nontrivial("bmat", n)
+
+
 def fam(fn, kind):
     return lambda ctx, k: fn(ctx, k, kind)
 
 
-FAMILIES = []
+FAMILIES = [Family("bmat-directed", bmat_directed, 20, 400)]
 for kd, q, th in (("line", 4, 60), ("tri", 12, 300), ("quad", 8, 200), ("tet", 8, 160), ("hex", 6, 100)):
     FAMILIES.append(Family("split-" + kd, fam(split_interp, kd), q, th))
     FAMILIES.append(Family("blocks-" + kd, fam(coupled_blocks, kd), q, th))
